@@ -397,6 +397,7 @@ pub fn run<P: Property>(p: &P, opts: &Opts) -> i32 {
             std::thread::Builder::new()
                 .stack_size(64 << 20)
                 .spawn_scoped(s, move || {
+                  let body = std::panic::catch_unwind(std::panic::AssertUnwindSafe(|| {
                     let mut obs = Obs::new();
                     let mut fail: Option<Failure> = None;
                     let (mut n_enum, mut n_gen) = (0u64, 0u64);
@@ -485,6 +486,12 @@ pub fn run<P: Property>(p: &P, opts: &Opts) -> i32 {
                         }
                     }
                     results.lock().unwrap().push((obs, fail, n_enum, n_gen));
+                  }));
+                  if body.is_err() {
+                      // a panic outside the oracle (generator / engine): harness problem, never a verdict
+                      let m = PANIC_MSG.with(|m| m.borrow_mut().take()).unwrap_or_default();
+                      infra(&format!("shard {} of {} panicked outside the oracle: {}", shard, p.id(), m));
+                  }
                 })
                 .unwrap();
         }
